@@ -88,6 +88,7 @@ func TestMain(m *testing.M) {
 	}
 	registerGlobals()
 	code := m.Run()
+	unprivCleanup()
 	ev.Flush()
 	os.Exit(code)
 }
